@@ -118,6 +118,15 @@ def check_C19(cx):
         if len(cx.samples) < 3 and rs:
             cx.samples.append({"pool_max": mx, "history": rs[0]["events"][:12]})
         log("  pool %s: %d graph edges, %d paths, t=%.1fs" % (name, total, len(paths), time.time() - cx.t0))
+    # concurrent use on real goroutines (no gates): exclusive ownership and capacity under load
+    cases = []
+    for i, (name, mx, sizes, _, _) in enumerate(pools):
+        for kind in ("bytes", "buffer"):
+            cases.append({"id": "stress-%s-%s" % (name, kind), "kind": kind, "max": mx, "sizes": [x for x in sizes if x > 0] or [1],
+                          "stress": 150 if quick else 1500, "seed": cx.rnd.randrange(1 << 40), "max_bufs": 0})
+    rs = run_driver(cx.driver, "pool", cases, cx.wd, tag="stress", shards=2)
+    cx.absorb(rs, cases)
+    cx.extra_cov["concurrent_get_put_operations"] = sum(r.get("hits", 0) for r in rs)
     # pmath: the TLA+ operators (checked by PMathOK) against the real functions, value by value
     rng = list(range(0, (1 << 17) + 3)) if not quick else list(range(0, 5000)) + list(range(60000, 70000)) + list(range(131000, 131075))
     for k in range(3, 31):
@@ -189,6 +198,8 @@ def pipe_op(label):
         return {"op": name, "pos": args[0], "refs": args[1]}
     if name == "Query":
         return {"op": name, "x": args[0]}
+    if name == "PCancel":
+        return {"op": "PCancel"}
     if name == "Fire":
         return {"op": "Fire", "k": args[0], "entry": args[1], "from": args[2], "stop": args[3], "pan": args[4], "pv": args[5]}
     raise Inconclusive("unknown Pipeline label " + label)
@@ -281,7 +292,10 @@ def check_C07(cx):
     lc = cfg({"W1": W("W1")}, qsize=1, until=True, serve="full", reads=1, maxfaults=1)
     cc.mc_and_replay_cex(cx, "MClive", lc, ["TypeOK"], properties=["C07_FaultEventuallyCloses"], spec="FairSpec",
                          what="a transport fault eventually closes the channel and ends the read loop")
-    for name, c in [("rf", cfg({"W1": W("W1", "Wv"), "W2": W("CW1")}, qsize=2, until=True, serve="full", reads=2, maxfaults=1)),
+    sw = cfg({"W1": W("W1"), "W2": W("Wv")}, qsize=1, until=True, serve="full", reads=1, maxfaults=1, swallow=True)
+    cc.mc_and_replay_cex(cx, "MCswallow", sw, inv, what="C07 sender failure closes the channel although every exception is swallowed")
+    for name, c in [("rfsw", cfg({"W1": W("W1", "Wv"), "W2": W("CW1")}, qsize=2, until=True, serve="full", reads=2, maxfaults=2, swallow=True)),
+                    ("rf", cfg({"W1": W("W1", "Wv"), "W2": W("CW1")}, qsize=2, until=True, serve="full", reads=2, maxfaults=1)),
                     ("rfc", cfg({"W1": W("W1", "Wv"), "W2": W("CW1")}, {"C1": "e1"}, qsize=1, until=False, serve="full", reads=1, maxfaults=2))]:
         results = cc.random_runs(cx, name, c, 40 if quick else 400, fault_prob=0.3, sizes=NZ_SIZES)
     for f, case, r in cx.fails:
